@@ -417,6 +417,7 @@ fn http_all(ctx: &mut Ctx, db: &Database, r: &mut Rng) {
                     l.bool(is_req).usize(li).usize(si);
                     super::c12::w_httpv(&mut l, &version);
                     w_msg(&mut l, &hs, &sw_seen);
+                    l.bytes(&msg);
                     // the observation the real parser built, for the model of the conversion
                     match &obs {
                         None => {
